@@ -41,6 +41,7 @@ velocity = 64
 [action_mapping]
 KEY_ESC = "panic"
 KEY_F2 = "octave_up"
+KEY_F12 = "mapping_up"
 [open_rgb]
 white = 0x005500
 black = 0x000055
@@ -61,12 +62,19 @@ subhandler = ""
 default_deadzone = 0.1
 [mapping.analog.map]
 ABS_X = { type = "cc", cc = 20, cc_negative = 21 }
+ABS_Y = { type = "pitch_bend" }
+[[mapping]]
+name = "M1"
 `
 
 var hnd = input.Handler{Name: "", DeviceInfo: input.VerifDeviceInfo("event3", "Dummy", "phys0", input.InputID{}, "", nil)}
 
 func key(name string, v int32) *input.InputEvent {
 	return &input.InputEvent{Source: hnd, Event: evdev.InputEvent{Type: evdev.EV_KEY, Code: evdev.KEYFromString[name], Value: v, Time: syscall.Timeval{}}}
+}
+
+func axisY(v int32) *input.InputEvent {
+	return &input.InputEvent{Source: hnd, Event: evdev.InputEvent{Type: evdev.EV_ABS, Code: evdev.ABS_Y, Value: v, Time: syscall.Timeval{}}}
 }
 
 func axis(v int32) *input.InputEvent {
@@ -86,7 +94,7 @@ func newDevice(ch, note int, out chan midi.Event, midiIn chan midi.Event) *devic
 		}
 		cfgCache[k] = cfg
 	}
-	in := input.Device{Name: "Dummy", DeviceType: input.KeyboardDevice, Handlers: []input.Handler{hnd}, AbsInfos: map[string]map[evdev.EvCode]evdev.AbsInfo{"event3": {evdev.ABS_X: {Minimum: -128, Maximum: 127}}}}
+	in := input.Device{Name: "Dummy", DeviceType: input.KeyboardDevice, Handlers: []input.Handler{hnd}, AbsInfos: map[string]map[evdev.EvCode]evdev.AbsInfo{"event3": {evdev.ABS_X: {Minimum: -128, Maximum: 127}, evdev.ABS_Y: {Minimum: -128, Maximum: 127}}}}
 	var mi <-chan midi.Event
 	if midiIn != nil {
 		mi = midiIn
@@ -355,6 +363,20 @@ func (sc scen) check(solo map[string][]string) func(x *vsched.Execution) []vsche
 					}
 				}
 			}
+			bend, bends := 8192, 0
+			for _, o := range x.Obs {
+				if o.Kind == "out" {
+					var st, a, b int
+					fmt.Sscanf(o.Val.(string), "%x %x %x", &st, &a, &b)
+					if st&0xf0 == 0xe0 {
+						bend = a | b<<7
+						bends++
+					}
+				}
+			}
+			if bend != 8192 {
+				vs = append(vs, vsched.Violation{"axis-at-rest-bend-not-centred", sc.name, fmt.Sprintf("the pitch-bend axis ended at rest, all output was delivered (%d pitch-bend messages), yet the receiver holds %d (centre is 8192)", bends, bend)})
+			}
 			if cc[20] != 0 || cc[21] != 0 {
 				vs = append(vs, vsched.Violation{"axis-at-rest-controller-nonzero", sc.name, fmt.Sprintf("the axis ended at rest, all output was delivered (%d controller messages), yet the receiver holds cc20=%d cc21=%d", n, cc[20], cc[21])})
 			}
@@ -422,6 +444,9 @@ func scenarios(tier string) []scen {
 	s = append(s, scen{name: "no-openrgb, panic through a slow output, then disconnect", events: []*input.InputEvent{key("KEY_ESC", 1)}, dBound: -1})
 	// a bidirectional axis swung from one end stop to the other and back to rest through the slow output
 	s = append(s, scen{name: "no-openrgb, bidirectional axis through a slow output", events: []*input.InputEvent{axis(127), axis(-128), axis(0)}, axisRest: true})
+	s = append(s, scen{name: "no-openrgb, pitch-bend axis through a slow output", events: []*input.InputEvent{axisY(127), axisY(-128), axisY(0)}, axisRest: true})
+	// a key loses its function through a mapping switch while it is held and is released there, next to the LED loop
+	s = append(s, scen{name: "openrgb connected, key released in a mapping where it has no function", events: []*input.InputEvent{key("KEY_A", 1), key("KEY_F12", 1), key("KEY_F12", 0), key("KEY_A", 0)}, rgb: true, dBound: -2, pace: 1})
 	// environment faults: the LED server refuses / drops up to two calls, or goes away for good, at every possible call
 	s = append(s, scen{name: "openrgb with faults (<=2 failing calls or server gone), press + release", events: []*input.InputEvent{key("KEY_A", 1), key("KEY_A", 0)}, rgb: true, faults: 2, pace: 2, dBound: -2})
 	if tier == "thorough" {
